@@ -33,6 +33,20 @@ THEOREMS = [
     'IblVerif.C10.ttl_recovered_imec',
     'IblVerif.C10.read_sync_empty_selection',
     'IblVerif.C10.read_sync_no_meta_counterexample',
+    # growth round
+    'IblVerif.C10.split_sync_array',
+    'IblVerif.C10.fronts2_rowwise',
+    'IblVerif.C10.fronts2_columnwise',
+    'IblVerif.C10.fronts2_columnwise_rect',
+    'IblVerif.C10.fronts_windows',
+    'IblVerif.C10.fronts2_windows',
+    'IblVerif.C10.read_sync_windows_imec',
+    'IblVerif.C10.detected_once',
+    'IblVerif.C10.analog_crossing_once',
+    'IblVerif.C10.fronts_eq_changes_ordered',
+    'IblVerif.C10.rises_falls_spec_ordered',
+    'IblVerif.C10.rises_falls_analog_ordered',
+    'IblVerif.C10.threshold_spec_linear',
 ]
 RULE = ('INPUT FORMS are drawn independently of the values (tags form:/seqform:/readform:/split:) for ~60 % of the cases: dtype '
         '(int8/16/32/64, float32/64), memory layout (C, Fortran, transposed view, strided view, negative stride, read-only), call spelling '
@@ -53,7 +67,13 @@ RULE = ('INPUT FORMS are drawn independently of the values (tags form:/seqform:/
         'thresholds 1.2 (default) / 0.5 / 2.5 / exactly a sample value, floor percentile on/off, sample slices incl. steps, None and '
         'clipping; imec ap/lf fixtures with every word pattern; read_sync, read_sync_digital and read(...)[1] compared; '
         '(e) TTL trains on a random subset of the 16 lines written into such a recording, read back through read_sync and run through '
-        'fronts/rises/falls along axis 0.  A case is non-trivial when it has at least one event / one non-zero word / one sample; '
+        'fronts/rises/falls along axis 0; (a2) arrays of 0..48 samples (lengths 0,1,2,3,15,16,17 always; every word pattern; all 12 array forms) '
+        'through split_sync, compared with the model\'s ARRAY pipeline (unpackbits, reshape(size, 16), roll / flip along axis 1 on the flat bit '
+        'array); (c2) for 2-D cases the real 2-D answer is also compared with the real 1-D function applied to every row (last axis) / every '
+        'column (first axis), same threshold object; (e2) the recordings of (e), uncompressed or through mtscomp with chunks of 2..7 samples, '
+        'read WINDOW BY WINDOW through read_sync (each window but the first re-reads one sample; cuts at / next to the event samples, one-sample '
+        'windows, empty windows also in front and at the end), fronts / rises / falls per window moved by the position of the first sample read, '
+        'compared with the model\'s `chunked` detection and with the single read.  A case is non-trivial when it has at least one event / one non-zero word / one sample; '
         'distinct by the full input')
 ASSUMPTIONS = [
     'host is little-endian (the byte view of an int16 word is low byte first); asserted each run',
@@ -67,24 +87,45 @@ ASSUMPTIONS = [
     'read_sync thresholds are positive and floor_percentile is 10 (default) or 0 (off): the code ignores any other value of floor_percentile (always the 10th percentile), which the property does not speak about',
     'np.percentile is an external component: the model receives the values it returned for the selection (float32) and reproduces the float32/float64 arithmetic around it bit for bit',
     'calibration of the analog channels (int16 -> volts) is C01\'s subject; here it is the fixed expression f32(f64(f32(x)) * gain64) with the gains taken from the Reader',
+    'window-by-window reading is checked on the 16 digital lines (columns 0..15 of read_sync); analog lines with the percentile floor depend on the '
+    'window by design (the floor is the 10th percentile of the samples read) and are not compared across windows',
+    'split_sync on arrays: 1-D arrays and (n, 1) columns in the 12 listed representations (what read_sync_digital passes); arrays with several '
+    'words per sample are outside the property (one 16-bit word per sample)',
     'excluded input class (known finding read-sync-no-meta, see known_findings): readers opened without meta data. Zero-sample selections (slice(ns, ns+10000), slice(k, k)) ARE generated, on every stream kind, through read_sync and read(sync=True)',
 ]
 TRUSTED = [
     'NumPy: unpackbits/roll/flip/diff/where/percentile semantics are exercised through the real code, not modelled beyond their documented meaning',
+    'translator tie: harness/pyfn2lean.py (reads the source text with ast, nothing is executed), the regular expressions of harness/tiespecs/c10.py '
+    'that recognise the array operations / comparisons, and the meaning Tie/C10.lean gives to int16, unpack_u8_reshape, roll, flip (evalSplit); '
+    'statements the translator does not recognise as calls (subscript assignments, returns) are not part of the translated skeleton',
     'the synthetic recordings are written by the harness (int16 C-order .bin + .meta text derived from the fixtures)',
 ]
-LEVEL_TEXT = ('Lean 4 theorems for every 16-bit word and line (bit layout, by index arithmetic), for every integer list / list of rows, '
-              'every step and both axes (fronts/rises/falls return exactly the change points, ascending, with polarity; analog mode), '
-              'for every recording with the announced width (read_sync layout: one row per sample, 16 digital lines then thresholded '
-              'analog lines) and for every family of 16 binary trains of every length (written into the sync channel, read back, front '
-              'detection recovers each train\'s change points); model tied to the code by an exact differential run incl. all 65 536 words '
-              'and real synthetic recordings')
-LEVEL_NOTE = ('trusted: Lean kernel, the Python correspondence harness, little-endian host, np.percentile (parameter of the model), '
-              'the int16->volt calibration expression (C01). partial: the float32 thresholding is executed bit-exactly by the model, but '
-              'threshold_spec is proved for an abstract ordered value type under the hypothesis "a < b iff not b <= a" (true of non-NaN '
-              'float32, not proved in Lean); front-detection theorems are over Int (the float64 instance of the same definitions is only run)')
-TECHNIQUE = ('Lean 4 proofs by list induction / index arithmetic (omega, simp); 16-way case split on the line index for the bit layout; '
-             'exact correspondence run (bit-exact floats)')
+LEVEL_TEXT = ('Lean 4 theorems for every 16-bit word and line (bit layout, by index arithmetic) and for every ARRAY of samples of every length '
+              '(the source\'s array pipeline int16 / byte view / unpackbits / reshape(size, 16) / roll 8 / flip: row t of the result is the '
+              'decoded word of sample t); for every list / list of rows over Int and over every linearly ordered commutative ring (Z, Q, R), '
+              'every step and both axes (fronts/rises/falls return exactly the change points, ascending, each once, with polarity; analog mode = '
+              'the threshold crossings, one front per crossing, never a rise and a fall); 2-D detection = the 1-D detection on every row (list '
+              'equality) / every column (same events); detection window by window (any window sizes, each window re-reading one sample) = '
+              'detection on the whole trace, 1-D and on sync matrices, also through read_sync of an imec stream; for every recording with the '
+              'announced width (read_sync layout: one row per sample, 16 digital lines then thresholded analog lines) and for every family of '
+              '16 binary trains of every length (written into the sync channel, read back, front detection recovers each train\'s change '
+              'points).  Two ties to the code on every run: (1) translator tie: the operation list of split_sync, the element-wise decisions and '
+              'the index offset of fronts / rises, the type decision table and the meta entries giving the channel counts are re-translated from '
+              'the current source and proved equal to the model (11 theorems); (2) exact differential run incl. all 65 536 words, arrays through '
+              'the array pipeline, real synthetic recordings read at once and window by window')
+LEVEL_NOTE = ('trusted: Lean kernel (+ Mathlib order lemmas for the ordered-ring statements), the Python correspondence harness, little-endian '
+              'host, np.percentile (parameter of the model), the int16->volt calibration expression (C01), the translator harness/pyfn2lean.py '
+              'and the NumPy meaning given to the five array operations in Tie/C10.lean (evalSplit). partial: (a) the float32 thresholding of '
+              'read_sync is executed bit-exactly by the model; threshold_spec_linear proves the binarisation for every linear order (the order of '
+              'non-NaN float32 values is one, which is not proved in Lean about Lean\'s Float32); (b) the ordered-ring theorems are about exact '
+              'arithmetic: in analog mode the code is exact on floats (comparisons, 0/1 values), in digital mode np.diff on non-integer floats '
+              'rounds and is only run, not proved; (c) the translator tie does not reach utils.falls (negation in a return statement), the '
+              'return expressions list(range(..)) of the meta index functions and Reader.read_sync (masked assignments, percentile floor, '
+              'concatenation order): these are tied by the correspondence run only; (d) window independence does not hold (and is not claimed) '
+              'for analog lines with the percentile floor, which is taken per read')
+TECHNIQUE = ('Lean 4 proofs by list induction / index arithmetic (omega, simp, linarith); 16-way case split on the line index for the bit layout; '
+             'reshape index arithmetic by induction on the array; seam lemma + induction over windows; source-to-Lean translator tie '
+             '(harness/tiespecs/c10.py, lean/IblVerif/Tie/C10.lean); exact correspondence run (bit-exact floats)')
 
 FIX = None  # set in _fixtures()
 
@@ -831,6 +872,84 @@ def _impl_ttl(case, tdir):
         sr.close()
 
 
+def _gen_window_lens(rng, n, trains):
+    """Window lengths (sum = n) for reading a recording piecewise.  Cuts are biased to the samples at which a line changes
+    (the event sample is then the first sample of a window, or the last one of the previous window), to windows of one
+    sample and to empty windows."""
+    events = sorted({t for tr in trains for t in range(1, n) if tr[t] != tr[t - 1]})
+    cuts = set()
+    kind = int(rng.integers(0, 5))
+    if kind == 0:                                    # every sample its own window
+        cuts = set(range(1, n))
+    elif kind == 1 and events:                       # cut exactly at / just before / just after events
+        for t in events:
+            if rng.random() < 0.7:
+                cuts.add(min(n, max(0, t + int(rng.integers(-1, 2)))))
+    elif kind == 2:                                  # regular windows
+        w = int(rng.integers(1, max(2, n // 2 + 1)))
+        cuts = set(range(w, n, w))
+    else:
+        for _ in range(int(rng.integers(0, 6))):
+            cuts.add(int(rng.integers(0, n + 1)))
+    bounds = [0] + sorted(c for c in cuts if 0 < c < n) + [n]
+    lens = [b - a for a, b in zip(bounds[:-1], bounds[1:])]
+    for _ in range(int(rng.integers(0, 3))):         # empty windows (also in front, also at the end)
+        if rng.random() < 0.5:
+            lens.insert(int(rng.integers(0, len(lens) + 1)), 0)
+    return lens
+
+
+def _gen_ttlwin_case(rng):
+    case = _gen_ttl_case(rng)
+    case['op'] = 'ttlwin'
+    case['lens'] = _gen_window_lens(rng, case['n'], case['trains'])
+    if rng.random() < 0.4:      # compressed backend: mtscomp chunks of a few samples, so windows straddle chunk seams too
+        case['backend'], case['chunk'] = 'cbin', int(rng.integers(2, 8))
+    return case
+
+
+def _windows_read(case):
+    """(first sample read, stop) of every window: all but the first non-empty one re-read the last sample already seen."""
+    out, seen = [], 0
+    for L in case['lens']:
+        a, b = seen, seen + L
+        out.append((a - 1 if a > 0 else a, b))
+        seen = b
+    return out
+
+
+def _impl_ttlwin(case, tdir):
+    """The recording read window by window through read_sync; fronts / rises / falls of every window moved by the position of
+    the first sample read.  Returns (answer in the driver's format, same events when the recording is read at once)."""
+    from ibldsp import utils
+    rec = _ttl_recording(case)
+    if case.get('backend'):
+        rec['backend'], rec['chunk'] = case['backend'], case['chunk']
+    D, sr = _open_case(rec, tdir)
+    try:
+        fr, ri, fa = [], [], []
+        with warnings.catch_warnings():
+            warnings.simplefilter('ignore')
+            for a0, b in _windows_read(case):
+                dig = sr.read_sync(slice(a0, b))[:, :16]
+                ind, sign = utils.fronts(dig, axis=0)
+                fr += [(int(i) + a0, int(j), int(sg)) for i, j, sg in zip(ind[0], ind[1], sign)]
+                r = utils.rises(dig, axis=0); f = utils.falls(dig, axis=0)
+                ri += [(int(i) + a0, int(j)) for i, j in zip(r[0], r[1])]
+                fa += [(int(i) + a0, int(j)) for i, j in zip(f[0], f[1])]
+            whole = sr.read_sync(slice(0, case['n']))[:, :16]
+            wi, ws = utils.fronts(whole, axis=0)
+        ans = ('ok fronts=' + (';'.join(f'{i},{j},{sg}' for i, j, sg in fr) or '-')
+               + ' rises=' + (';'.join(f'{i},{j}' for i, j in ri) or '-')
+               + ' falls=' + (';'.join(f'{i},{j}' for i, j in fa) or '-'))
+        same = fr == [(int(i), int(j), int(sg)) for i, j, sg in zip(wi[0], wi[1], ws)]
+        return ans, same
+    except Exception as e:  # noqa
+        return f'err {type(e).__name__}', True
+    finally:
+        sr.close()
+
+
 # ---------------------------------------------------------------------------------------------
 # correspondence
 # ---------------------------------------------------------------------------------------------
@@ -924,6 +1043,30 @@ def correspondence(ctx):
     ctx.note('split_sync: all 65 536 int16 samples compared in %d array forms (exhaustive over words): %s'
              % (len(forms), ', '.join(forms)))
 
+    # ---- (a2) arrays of samples through the model's ARRAY pipeline (reshape(size, 16), roll / flip along axis 1) ----
+    import spikeglx
+    acases, alines, aimpl = [], [], []
+    for k in range(ctx.n(500, 6000)):
+        n = [0, 1, 2, 3, 15, 16, 17][k] if k < 7 else _gen_len(rng)
+        xs = _gen_words(rng, n) if n else []
+        form = str(rng.choice(SPLIT_FORMS_FULL + SPLIT_FORMS_MORE))
+        if form == 'i32u':
+            xs = [v & 0xFFFF for v in xs]
+        arr = _split_array([v - 65536 if v >= 32768 else v for v in xs], form)
+        try:
+            out = np.asarray(spikeglx.split_sync(arr))
+            got = (f'ok n={out.shape[0]} ' + (','.join(''.join(str(int(v)) for v in r) for r in out) or '-')) if out.ndim == 2 and out.shape[1] == 16 \
+                else f'shape={out.shape}'
+        except Exception as e:  # noqa
+            got = f'err {type(e).__name__}'
+        acases.append(dict(op='split', x=[v - 65536 if v >= 32768 else v for v in xs], form=form, view='array'))
+        alines.append('splitflat ' + _lst(v - 65536 if v >= 32768 else v for v in xs))
+        aimpl.append(got)
+    for cse, a, b in zip(acases, aimpl, ctx.lean(alines)):
+        n = len(cse['x'])
+        ctx.compare('split-array', cse, a, b, nontrivial=any(cse['x']),
+                    tags=('split-array', 'split-array:' + cse['form'], 'n=0' if n == 0 else 'n=1' if n == 1 else 'n=2..16' if n <= 16 else 'n>16'))
+
     # ---- (b), (c) fronts / rises / falls ---------------------------------------------------------
     cases = _gen_1d_cases(ctx, ctx.n(2500, 40000)) + _gen_2d_cases(ctx, ctx.n(1500, 25000))
     # exhaustive tiny boxes: every 0/1 train up to length 6 (7 thorough), every 0/1 matrix 2x2, 2x3, 3x2
@@ -967,6 +1110,40 @@ def correspondence(ctx):
             if form:
                 fu['form'] = dict(form, step_type='py' if form['step_type'] == 'uint8' else form['step_type'])
             followups.append(fu)
+    # 2-D detection = the 1-D detection on every row (last axis) / every column (first axis), on the real code
+    nline = 0
+    for cse, ans2 in zip(cases, impl):
+        if 'shape' not in cse or cse['cls'] == 'box' or not ans2.startswith('ok') or nline >= ctx.n(1500, 20000):
+            continue
+        r, c = cse['shape']
+        if r == 0 or c == 0:
+            continue
+        nline += 1
+        m = np.array(cse['x'], dtype=cse['dtype']).reshape(r, c)
+        ax = cse['axis'] % 2
+        exp = []
+        ok1 = True
+        for q in range(r if ax == 1 else c):
+            line = np.array(m[q] if ax == 1 else m[:, q])          # a fresh 1-D array per line
+            f1 = {'step_type': cse['form']['step_type']} if cse.get('form') else None      # the same threshold object
+            a1 = _impl_front_op_raw(cse['op'][:-1] + '1', line, -1, cse['step'], cse['analog'], False, f1)
+            if not a1.startswith('ok'):
+                ok1 = False
+                break
+            if cse['op'] == 'fronts2':
+                ind_, sg_ = a1[3:].split(' sign=')
+                ts = [] if ind_ == 'ind=-' else [int(v) for v in ind_[4:].split(',')]
+                sg = [] if sg_ == '-' else sg_.split(',')
+                exp += [((q, t) if ax == 1 else (t, q), s_) for t, s_ in zip(ts, sg)]
+            else:
+                ts = [] if a1 == 'ok -' else [int(v) for v in a1[3:].split(',')]
+                exp += [((q, t) if ax == 1 else (t, q), None) for t in ts]
+        if not ok1:
+            continue
+        exp.sort(key=lambda e: e[0])
+        want = 'ok ' + (';'.join(f'{i},{j}' + ('' if s_ is None else f',{s_}') for (i, j), s_ in exp) or '-')
+        ctx.compare('linewise', dict({k: v for k, v in cse.items() if k not in ('cls', 'touched')}, view='linewise'), ans2, want,
+                    nontrivial=bool(exp), tags=('linewise', 'linewise:rows' if ax == 1 else 'linewise:columns', 'linewise:' + cse['op']))
     model = ctx.lean(lines)
     for cse, a, b in zip(cases, impl, model):
         n = len(cse['x'])
@@ -1062,6 +1239,24 @@ def correspondence(ctx):
         ctx.compare('ttl', cse, a, b, nontrivial=('fronts=-' not in a), tags=tags)
         ctx.compare('ttl-per-line', dict(cse, view='per-line'), 'consistent' if per_line else 'fronts(sync[:, k]) differs from fronts(sync, axis=0)',
                     'consistent', nontrivial=('fronts=-' not in a), tags=('ttl-per-line',))
+    # ---- (e2) the same kind of recording read WINDOW BY WINDOW (each window re-reads one sample) --------------
+    wcases = [_gen_ttlwin_case(rng) for _ in range(ctx.n(200, 3000))]
+    lines, impls = [], []
+    for cse in wcases:
+        tdir = tempfile.mkdtemp(prefix='c10_')
+        try:
+            impls.append(_impl_ttlwin(cse, tdir))
+        finally:
+            shutil.rmtree(tdir, ignore_errors=True)
+        lines.append(f"ttlwin {cse['n']} {_lst(cse['lens'])} " + ' '.join(cse['trains']))
+    model = ctx.lean(lines)
+    for cse, (a, same), b in zip(wcases, impls, model):
+        nw = len(cse['lens'])
+        tags = ('ttlwin', 'ttlwin:' + cse['stream'], 'ttlwin:' + cse.get('backend', 'bin'), 'windows=1' if nw == 1 else 'windows=2..4' if nw <= 4 else 'windows>4',
+                'ttlwin:empty-window' if 0 in cse['lens'] else 'ttlwin:no-empty-window', 'events' if 'fronts=-' not in a else 'no-events')
+        ctx.compare('ttlwin', cse, a, b, nontrivial=('fronts=-' not in a), tags=tags)
+        ctx.compare('ttlwin-whole', dict(cse, view='whole'), 'same events' if same else 'the windows and the single read give different fronts',
+                    'same events', nontrivial=('fronts=-' not in a), tags=('ttlwin-whole',))
     ctx.exhaustive = False
     ctx.note('exhaustive parts: all 65 536 sync words; every 0/1 train of length <= %d; every 0/1 matrix 2x2, 2x3, 3x2 on both axes' % (ctx.n(7, 9) - 1))
 
@@ -1276,8 +1471,31 @@ def oracle_ttl(case):
         shutil.rmtree(tdir, ignore_errors=True)
 
 
+def oracle_ttlwin(case):
+    """the recording read window by window (each window re-reading one sample): every event of every train is found exactly
+    once, at its sample, with its polarity — whatever the windows."""
+    tdir = tempfile.mkdtemp(prefix='c10_')
+    try:
+        ans, _ = _impl_ttlwin(case, tdir)
+    finally:
+        shutil.rmtree(tdir, ignore_errors=True)
+    if not ans.startswith('ok'):
+        return f'reading window by window raised: {ans}'
+    n = case['n']
+    trs = [[int(ch) for ch in t] for t in case['trains']]
+    ev = [(t, k, trs[k][t] - trs[k][t - 1]) for t in range(1, n) for k in range(16) if trs[k][t] != trs[k][t - 1]]
+    exp = ('ok fronts=' + (';'.join(f'{t},{k},{s}' for t, k, s in ev) or '-')
+           + ' rises=' + (';'.join(f'{t},{k}' for t, k, s in ev if s > 0) or '-')
+           + ' falls=' + (';'.join(f'{t},{k}' for t, k, s in ev if s < 0) or '-'))
+    if ans != exp:
+        return (f'windows {case["lens"]} (read as {_windows_read(case)}): detected {ans[3:][:300]}, the trains have the events {exp[3:][:300]}')
+    return None
+
+
 def oracle(case):
     op = case['op']
+    if op == 'ttlwin':
+        return oracle_ttlwin(case)
     if op == 'split':
         return oracle_split(case['x'], case.get('form', 'i16'))
     if op in ('fronts1', 'rises1', 'falls1', 'fronts2', 'rises2', 'falls2'):
@@ -1300,6 +1518,8 @@ def _size(case):
         return (3, case['ns'] * (sum(case['cfg']) if case['stream'] == 'nidq' else 400))
     if op == 'ttl':
         return (4, case['n'] * (1 + len(case.get('lines', []))))
+    if op == 'ttlwin':
+        return (5, case['n'] * (1 + len(case.get('lines', []))) + len(case['lens']))
     if op == 'seq':
         return (1 if 'shape' not in case else 2, len(case['x']) + len(case['calls']))
     return (1 if op.endswith('1') else 2, len(case['x']))
@@ -1355,6 +1575,8 @@ def _small_candidates(ctx):
     rng = ctx.subrng(991)
     for k in range(40):
         c.append(_gen_ttl_case(rng))
+    for k in range(30):
+        c.append(_gen_ttlwin_case(rng))
     for k in range(60):
         c.append(_gen_nidq_case(rng, default_args=(k % 3 == 0)))
     for k in range(6):
